@@ -430,6 +430,7 @@ type ddesc struct {
 	custom     func(sentinel error) (resource.Option, resource.Detector)
 	name       string
 	invalidKey bool // StringDetector with an empty key: fails with its own (sentinel-free) error
+	same       int  // > 0: this entry is THE SAME detector value / option as entry same-1 (listed again)
 }
 
 // builtinOpt: an option of config.go whose detector reads the machine; what it yields is observed once by running it alone.
@@ -501,6 +502,7 @@ type envResult struct {
 	Schema   string  `json:"schema"`
 	Err      int     `json:"err"`
 	EnvSame  bool    `json:"env_same"`
+	Repeat   string  `json:"repeat,omitempty"`  // why New(WithFromEnv(), WithAttributes(overrides), WithFromEnv()) is wrong, empty = fine
 	Default  string  `json:"default,omitempty"` // why resource.Default() is wrong, empty = fine / not checked
 	ErrText  string  `json:"err_text"`
 	Panicked string  `json:"panicked,omitempty"`
@@ -563,6 +565,20 @@ func runEnvOnce(checkDefault bool) (res envResult) {
 	}
 	e2 := resource.Environment()
 	res.EnvSame = e2.Equal(r) && e2.SchemaURL() == r.SchemaURL() && len(e2.Attributes()) == len(r.Attributes())
+	// the same option listed again after another detector overrode its keys: the later occurrence wins again
+	var over []attribute.KeyValue
+	for _, a := range r.Attributes() {
+		over = append(over, attribute.String(string(a.Key), "overridden-in-between"))
+	}
+	over = append(over, attribute.Bool("between", true))
+	if r3, _ := resource.New(context.Background(), resource.WithFromEnv(), resource.WithAttributes(over...), resource.WithFromEnv()); r3 == nil {
+		res.Repeat = "nil resource"
+	} else {
+		want, _ := resource.Merge(resource.NewSchemaless(over...), r)
+		if !r3.Equal(want) || r3.Len() != want.Len() {
+			res.Repeat = "attributes of the second WithFromEnv() did not win over the detector in between: " + r3.String()
+		}
+	}
 	if checkDefault {
 		res.Default = checkDefaultResource(r)
 	}
@@ -720,7 +736,8 @@ func encodeValue(r *vgen.Rand, v string) string {
 	return sb.String()
 }
 
-var envKeys = []string{"a", "b", "c", "service.name", "host.name", "k.1", "a b", "K", "deployment.environment", "x/y", "é", ""}
+var envKeys = []string{"a", "b", "c", "service.name", "host.name", "k.1", "a b", "K", "deployment.environment", "x/y", "é", "",
+	"\"q\"", "'q", "q'", "`q`", "[q]", "\\q", "(q)", "{q}", "q\"", "\"", "'"}
 
 func genValueBytes(r *vgen.Rand) string {
 	switch r.Intn(8) {
@@ -734,6 +751,8 @@ func genValueBytes(r *vgen.Rand) string {
 		return string(b)
 	case 2:
 		return vgen.Pick(r, []string{"a,b", "a=b", "100%", "%41", "%", "%%", " lead", "trail ", "\x00", "a\x00b", "\xc2\xa0x\xc2\xa0", "日本", "+", "a+b", "%2", "%zz"})
+	case 3: // quotes and other punctuation at the very start / end of a value
+		return vgen.Pick(r, []string{"\"v\"", "'v'", "v'", "'v", "v\"", "\"v", "`v`", "[v]", "(v)", "{v}", "v\\", "\\v", "\"", "'", "\"\"", "''", "'\"v\"'", "<v>"})
 	default:
 		const cs = "abcxyz019._-/:"
 		b := make([]byte, r.Intn(6)+1)
@@ -775,7 +794,7 @@ func genEnvCase(r *vgen.Rand) envCase {
 	case 1:
 		c.svc = pad(r)
 	default:
-		c.svcClean = vgen.Pick(r, []string{"svc", "my service", "a,b", "x=y", "%41", "é"})
+		c.svcClean = vgen.Pick(r, []string{"svc", "my service", "a,b", "x=y", "%41", "é", "\"svc\"", "'svc'", "svc'", "\"svc", "`svc`", "[svc]", "svc\\", "\"", "'"})
 		c.svc = pad(r) + c.svcClean + pad(r)
 	}
 	if n == 0 && r.Bool() {
@@ -1148,8 +1167,33 @@ func main() {
 			}
 			ds = append(ds, d)
 		}
-		if n >= 2 && r.Chance(1, 6) { // the same detector listed twice
-			ds[r.Intn(n)] = ds[r.Intn(n)]
+		if n >= 1 && r.Chance(1, 3) { // X, Y, X: the same (comparable) detector value / option listed again after another one overrode its keys
+			i := r.Intn(n)
+			x := ds[i]
+			if !x.absent {
+				x.viaOpt = false // a scripted struct value (pointer + error) is comparable; WithAttributes' detector is not
+				ds[i] = x
+				over := observe(x.res.build()).attrs
+				if len(over) > 2 {
+					over = over[:2]
+				}
+				y := ddesc{res: rdesc{kind: 2, schema: x.res.schema}}
+				for _, a := range over {
+					y.res.input = append(y.res.input, kvt{k: a.k, v: val{t: 4, s: "overridden-in-between"}})
+				}
+				y.res.input = append(y.res.input, kvt{k: "between", v: val{t: 1, b: true}})
+				y.viaOpt = y.res.schema == "" && r.Bool()
+				again := x
+				again.same = i + 1
+				nds := append([]ddesc(nil), ds[:i+1]...)
+				nds = append(nds, y, again)
+				if r.Bool() && i+1 < len(ds) {
+					nds = append(nds, ds[i+1:]...)
+				}
+				ds = nds
+				n = len(ds)
+				w.Tally("detect:same-detector-listed-again")
+			}
 		}
 		desc := map[string]any{"op": "detect", "schema": s0}
 		guard(desc, func() {
@@ -1158,9 +1202,27 @@ func main() {
 			detOK := true
 			sentinels := make([]error, len(ds))
 			var dobs, dcoq, ddescs []string
+			type builtDet struct {
+				opt resource.Option
+				det resource.Detector
+				ok  bool // det usable with resource.Detect
+			}
+			built := make([]builtDet, len(ds))
 			for j, d := range ds {
 				sentinels[j] = fmt.Errorf("detector %d failed", j)
 				dcoq = append(dcoq, d.coq())
+				if d.same > 0 && !d.absent { // the very same value again
+					o := d.same - 1
+					sentinels[j] = sentinels[o]
+					dobs = append(dobs, dobs[o])
+					ddescs = append(ddescs, "same as #"+fmt.Sprint(o))
+					built[j] = built[o]
+					opts = append(opts, built[o].opt)
+					if built[o].ok {
+						dets = append(dets, built[o].det)
+					}
+					continue
+				}
 				if d.absent {
 					opts = append(opts, resource.WithDetectors(resource.Detector(nil)))
 					dets = append(dets, nil)
@@ -1183,17 +1245,22 @@ func main() {
 					w.Tally("detect:kind=" + strings.SplitN(d.name, "(", 2)[0])
 					opt, det := d.custom(sentinels[j])
 					opts = append(opts, opt)
+					built[j] = builtDet{opt, det, det != nil}
 					if det != nil {
 						dets = append(dets, det)
 					} else {
 						detOK = false
 					}
 				} else if d.viaOpt {
-					opts = append(opts, resource.WithAttributes(toAttrs(d.res.input)...))
+					opt := resource.WithAttributes(toAttrs(d.res.input)...)
+					opts = append(opts, opt)
+					built[j] = builtDet{opt, nil, false}
 					detOK = false
 				} else {
-					opts = append(opts, resource.WithDetectors(scripted{res, e}))
-					dets = append(dets, scripted{res, e})
+					sd := scripted{res, e}
+					opts = append(opts, resource.WithDetectors(sd))
+					dets = append(dets, sd)
+					built[j] = builtDet{resource.WithDetectors(sd), sd, true}
 				}
 			}
 			desc["detectors"] = ddescs
@@ -1256,6 +1323,10 @@ func main() {
 		{attrs: "  ", svc: "  ", intent: true, kind: "env-corpus"},
 		{unsetAttrs: true, unsetSvc: true, intent: true, kind: "env-corpus"},
 		{unsetAttrs: true, svc: "only-name", intent: true, svcClean: "only-name", kind: "env-corpus"},
+		{attrs: "a=\"v\"", unsetSvc: true, intent: true, pairs: [][2]string{{"a", "\"v\""}}, kind: "env-corpus"},
+		{attrs: "\"a\"=v'", svc: "'name'", intent: true, pairs: [][2]string{{"\"a\"", "v'"}}, svcClean: "'name'", kind: "env-corpus"},
+		{attrs: "'a=1,b=2'", svc: "\"n", intent: true, pairs: [][2]string{{"'a", "1"}, {"b", "2'"}}, svcClean: "\"n", kind: "env-corpus"},
+		{attrs: "`a`=[v],(b)={w}\\", unsetSvc: true, intent: true, pairs: [][2]string{{"`a`", "[v]"}, {"(b)", "{w}\\"}}, kind: "env-corpus"},
 		{attrs: "a=+%2B", unsetSvc: true, intent: true, pairs: [][2]string{{"a", "++"}}, kind: "env-corpus"},
 		{attrs: "\xc2\xa0a\xe3\x80\x80=\xc2\x85v\xe2\x80\x83", unsetSvc: true, intent: true, pairs: [][2]string{{"a", "v"}}, kind: "env-corpus"},
 		{attrs: "a=\xa0v\xa0", unsetSvc: true, intent: true, pairs: [][2]string{{"a", "\xa0v\xa0"}}, kind: "env-corpus"},
@@ -1318,6 +1389,9 @@ func main() {
 		}
 		if !res.EnvSame {
 			w.Violation("resource.Environment() differs from New(WithFromEnv())", desc)
+		}
+		if res.Repeat != "" {
+			w.Violation("New(WithFromEnv(), WithAttributes(...), WithFromEnv()): "+res.Repeat, desc)
 		}
 		if res.Default != "" {
 			w.Violation("resource.Default(): "+res.Default, desc)
